@@ -58,6 +58,7 @@ ZParseDemands(e, r) ==
     <<"X.zero",       (~e.ok /\ ~e.panic) => e.v = BZero>>,            \* the properties do not fix the value returned with an error
     <<"P.sentinel",   (IsFail(r) /\ ~e.ok /\ ~e.panic /\ r.req # {"ErrInputTooLong"}) => SentinelsOK(r, e.is)>>,
     <<"C18.toolong",  (IsFail(r) /\ ~e.ok /\ ~e.panic /\ r.req = {"ErrInputTooLong"}) => SentinelsOK(r, e.is)>>,
+    <<"C18.notlong",  (IsFail(r) /\ ~e.ok /\ "ErrInputTooLong" \in r.forb) => "ErrInputTooLong" \notin SeqRange(e.is)>>,  \* within the limit: never refused for its length
     <<"C18.noecho",   (IsFail(r) /\ r.req = {"ErrInputTooLong"}) => ~e.echo>>
   >>
 \* Impl layer against the code (model drift, a note, never a verdict): for a well-formed object
